@@ -97,7 +97,9 @@ func C16(p *ir.Program, r *report.R) {
 		return out
 	}
 	sinks, fns := ir.AnalyzeTaint(p, ir.TaintConfig{Scope: scope, Entries: entries, TaintedFields: tf, Impls: impls, NonNilFields: nonNilF, CallSites: callSites,
-		NonNilFacts: []string{"types.Block.HashesTo($,*)"}, NonNilOperands: []string{"msg.Part", "msg.Proposal", "msg.Vote"},
+		NonNilFacts: []string{"types.Block.HashesTo($,*)", "types.Block.WellFormed($)"},
+		// txs[*] / evl[*]: elements of the lists of a block that passed Block.WellFormed (obligations wellformed/* below)
+		NonNilOperands: []string{"msg.Part", "msg.Proposal", "msg.Vote", "txs[*]", "evl[*]"},
 		UntaintedResults: []string{"consensus.BlockChainApp.*", "consensus.EvidencePool.*", "log.Logger.*"}})
 	// ---- obligations the analysis relies on ------------------------------------------------
 	// (1) the reactor dereferences the top-level pointers of a message before it is queued: a nil
@@ -179,11 +181,65 @@ func C16(p *ir.Program, r *report.R) {
 				return // not after the decode
 			}
 			n++
+			wf := " || types.Block.WellFormed(cs.RoundState.ProposalBlock)"
 			c.Guards(csT+"addProposalBlockPart", "use decoded block", in,
-				G{"block", "!eq(cs.RoundState.ProposalBlock,nil)"}, G{"header", "!eq(cs.RoundState.ProposalBlock.Header,nil)"},
-				G{"data", "!eq(cs.RoundState.ProposalBlock.Data,nil)"}, G{"last-commit", "!eq(cs.RoundState.ProposalBlock.LastCommit,nil)"})
+				G{"block", "!eq(cs.RoundState.ProposalBlock,nil)" + wf}, G{"header", "!eq(cs.RoundState.ProposalBlock.Header,nil)" + wf},
+				G{"data", "!eq(cs.RoundState.ProposalBlock.Data,nil)" + wf}, G{"last-commit", "!eq(cs.RoundState.ProposalBlock.LastCommit,nil)" + wf})
 		})
 		c.MustFind("K1", csT+"addProposalBlockPart/use decoded block", ap, n, "use of the decoded block")
+		// Block.WellFormed is what establishes the invariant: true only for a non-nil block with header,
+		// data and last commit, and false as soon as a transaction or evidence entry is nil
+		if wfn := p.TryFunc("types", "Block.WellFormed"); wfn != nil {
+			nT := 0
+			var nilTx, nilEv bool
+			for _, rt := range ir.Returns(wfn) {
+				fs := ir.FactsAt(rt.Instr)
+				switch ir.AbstractResult(rt.Results[0]) {
+				case "true":
+					nT++
+					c.Guards("types.(*Block).WellFormed", "return true", rt.Instr,
+						G{"block", "!eq(b,nil)"}, G{"header", "!eq(b.Header,nil)"}, G{"data", "!eq(b.Data,nil)"}, G{"last-commit", "!eq(b.LastCommit,nil)"})
+					// both element loops ran to their end
+					found, _, tr := ir.FindPath(ir.PathQuery{From: ir.Entry(wfn), Target: func(in ssa.Instruction) bool { return in == ssa.Instruction(rt.Instr) },
+						AvoidEdge: func(atoms []string) bool {
+							for _, a := range atoms {
+								if ir.Match("le(len(b.Data.Txs),*)", a) || ir.Match("!lt(*,len(b.Data.Txs))", a) {
+									return true
+								}
+							}
+							return false
+						}})
+					r.Check("K1", "wellformed/types.(*Block).WellFormed/all-txs-visited", p.InstrPos(rt.Instr), !found, fmt.Sprintf("true is returned only after the transaction loop ran to the end: %v", tr))
+					found, _, tr = ir.FindPath(ir.PathQuery{From: ir.Entry(wfn), Target: func(in ssa.Instruction) bool { return in == ssa.Instruction(rt.Instr) },
+						AvoidEdge: func(atoms []string) bool {
+							for _, a := range atoms {
+								if ir.Match("le(len(b.Evidence.Evidence),*)", a) {
+									return true
+								}
+							}
+							return false
+						}})
+					r.Check("K1", "wellformed/types.(*Block).WellFormed/all-evidence-visited", p.InstrPos(rt.Instr), !found, fmt.Sprintf("true is returned only after the evidence loop ran to the end: %v", tr))
+				case "false":
+					if ir.HasFact(fs, "eq(b.Data.Txs[*],nil)") {
+						nilTx = true
+					}
+					if ir.HasFact(fs, "eq(b.Evidence.Evidence[*],nil)") {
+						nilEv = true
+					}
+				}
+			}
+			r.Check("K1", "wellformed/types.(*Block).WellFormed/nil-tx-rejected", p.Pos(wfn.Pos()), nilTx && nT == 1, "a nil transaction entry makes the block malformed")
+			r.Check("K1", "wellformed/types.(*Block).WellFormed/nil-evidence-rejected", p.Pos(wfn.Pos()), nilEv, "a nil evidence entry makes the block malformed")
+			// fast sync: a received block is used only after WellFormed
+			rc := p.Func("blockchain", "BlockchainReactor.Receive")
+			for _, call := range ir.Calls(rc, "blockchain.BlockPool.AddBlock") {
+				c.Guards("blockchain.(*BlockchainReactor).Receive", "AddBlock", call.(ssa.Instruction), G{"well-formed", "types.Block.WellFormed(" + Arg(call, 2) + ")"})
+			}
+			c.MustFind("K1", "blockchain.(*BlockchainReactor).Receive/AddBlock", rc, len(ir.Calls(rc, "blockchain.BlockPool.AddBlock")), "pool.AddBlock call")
+		} else {
+			r.Undecided("K1", "wellformed/types.(*Block).WellFormed", "-", "Block.WellFormed not found: the element invariant assumed for txs[*]/evl[*] has no establishing check")
+		}
 		c.WhoMayWrite("consensus/types", "RoundState.ProposalBlock", csT+"addProposalBlockPart", csT+"enterCommit", csT+"enterNewRound", csT+"enterPrecommit", csT+"updateToStatus", csT+"defaultDecideProposal", csT+"defaultSetProposal", csT+"SetProposalAndBlock")
 	}
 	// (3) the part count of an accepted proposal is bounded before the part set is allocated
@@ -252,11 +308,51 @@ func C16(p *ir.Program, r *report.R) {
 					return
 				}
 				seen[k] = true
-				validated := ir.HasFact(ir.FactsAt(in), "*BitArray.Valid*(*)") || ir.HasFact(ir.FactsAt(in), "*ValidateBasic(*)*")
+				// the load that only feeds the validity test itself is not a use
+				onlyValid := u.Referrers() != nil && len(*u.Referrers()) > 0
+				if onlyValid {
+					for _, ref := range *u.Referrers() {
+						if cl, ok := ref.(*ssa.Call); !ok || ir.CalleeName(cl) != "common.BitArray.Valid" {
+							if _, dbg := ref.(*ssa.DebugRef); !dbg {
+								onlyValid = false
+							}
+						}
+					}
+				}
+				if onlyValid {
+					seen[k] = false
+					return
+				}
+				validated := ir.HasFact(ir.FactsAt(in), "common.BitArray.Valid("+ir.Render(u)+")") || ir.HasFact(ir.FactsAt(in), "*ValidateBasic(*)*")
 				r.Check("K1", "peer-bitarray/"+k, p.InstrPos(in), validated,
 					"a BitArray decoded from a peer (independent Bits and Elems) is used/stored without checking Bits against len(Elems); Sub/Or/PickRandom/GetIndex on it index out of range in the gossip goroutines, which have no recover")
 			})
 		}
+	}
+	// the validity test itself: true for a non-nil array only with Bits > 0 and exactly (Bits+63)/64 words
+	if vf := p.TryFunc("libs/common", "BitArray.Valid"); vf != nil {
+		okV := false
+		for _, rt := range ir.Returns(vf) {
+			ph, ok := rt.Results[0].(*ssa.Phi)
+			if !ok {
+				continue
+			}
+			nFalse, nCmp := 0, 0
+			for i, e := range ph.Edges {
+				pred := ph.Block().Preds[i]
+				if k, isC := e.(*ssa.Const); isC && k.Value != nil && k.Value.String() == "false" {
+					nFalse++
+					continue
+				}
+				for _, a := range ir.CondAtoms(e, true) {
+					if (a == "eq(len(bA.Elems),((bA.Bits + 63) / 64))" || a == "eq(((bA.Bits + 63) / 64),len(bA.Elems))") && ir.HasFact(ir.FactsAtBlock(pred), "lt(0,bA.Bits)") {
+						nCmp++
+					}
+				}
+			}
+			okV = nCmp == 1 && nFalse == len(ph.Edges)-1
+		}
+		r.Check("K11", "common.(*BitArray).Valid/invariant", p.Pos(vf.Pos()), okV, "Valid() is Bits > 0 && len(Elems) == (Bits+63)/64, the invariant NewBitArray establishes")
 	}
 	r.Stats["functions analysed (tainted parameter or field reached)"] = len(fns)
 	r.Stats["sinks"] = len(sinks)
